@@ -28,7 +28,8 @@ From ApiFu Require Import Cplx.Tables Cplx.ParserDepthModel Cplx.MergeCountModel
      Cplx.ComplexityDecode Cplx.ComplexitySpec Cplx.ParserDepthProofs Cplx.CostWalkProofs Cplx.MergeFamily
      Cplx.MergeCountProofs Cplx.FragmentWalkCount Cplx.SpreadLists Cplx.FragmentWalkProofs
      Cplx.MergeLowerBound Cplx.CostWalkPaths.
-From ApiFu Require Base.Sexp Lex.LexModel Cplx.TokenClass Cplx.ParseFromBytes.
+From ApiFu Require Base.Sexp Lex.LexModel Lex.LexProgress Cplx.TokenClass Cplx.ParseFromBytes Cplx.ScanSteps.
+From ApiFu Require Cplx.ParserStackDepth Vld.Ast Vld.Inspect Vld.ValidatorModel Cplx.InspectSteps.
 Import ListNotations.
 Open Scope Z_scope.
 
@@ -132,6 +133,60 @@ Theorem C12_parse_from_bytes_linear : forall bs : Base.Sexp.bytes,
                    1000 < 6 + 4 * maxnest (map TokenClass.tok_class ts)).
 Proof. exact ParseFromBytes.parse_from_bytes_linear. Qed.
 
+(** The scanner goes through the input once: for every byte string (valid UTF-8 or not, with or
+    without lexical errors, both modes) the state after the last Scan() is reached from the initial
+    state by exactly [runes bs] consumeRune transitions (C07's trace relation [nsteps]) - at least one
+    per token, at most one per byte; each transition decodes one rune (one DecodeRune). *)
+Theorem C12_scan_steps_linear : forall (m : bool) (bs : Base.Sexp.bytes),
+  exists ts es st' k,
+    Lex.LexModel.lex m bs = Lex.LexModel.Done ts es
+    /\ Lex.LexProgress.nsteps false k (Lex.LexModel.init bs) st' /\ Lex.LexModel.is_done st' = true
+    /\ k = TokenClass.runes bs
+    /\ (length ts <= k <= length bs)%nat.
+Proof. exact ScanSteps.scan_steps_linear. Qed.
+
+(** Stack: every production calls enter() first and enter() panics when p.recursion would exceed
+    the limit, so in every state of every parse p.recursion <= limit and its high-water mark is at
+    most limit + 1: the parser never has more than limit + 1 production frames on the Go stack.
+    (The recursions of the validator models are bounded by their fuels, which the theorems show are
+    never exhausted: |sets| + 2 nested addFieldSelectionsWithCycleDetection, |fields| + 1 nested
+    validateSameResponseShape / validateFieldsInSetCanMerge - C12_merge_steps_poly.) *)
+Theorem C12_parse_depth_bounded : forall c ts, 0 <= limit c ->
+  match parse c ts with
+  | Ok s' => rec_ s' <= limit c /\ maxrec s' <= limit c + 1
+  | Err _ s' => maxrec s' <= limit c + 1
+  | OutOfFuel => True
+  end.
+Proof. exact ParserStackDepth.parse_depth_bounded. Qed.
+
+(** ast.Inspect (C04's model Vld/Inspect.v), for EVERY visitor, state and tree: wrapping the visitor
+    with counters does not change what the traversal computes, the visitor is called between 1 and
+    [nodes t] times with a node and at most [nodes t] times with nil. *)
+Theorem C12_inspect_visits_linear :
+  forall (St : Type) (enter : St -> Inspect.node -> St * bool) (leave : St -> St) (t : Inspect.tree) (s : St),
+    fst (Inspect.inspect (InspectSteps.enter_c St enter) (InspectSteps.leave_c St leave) t (s, (0, 0)%nat))
+    = Inspect.inspect enter leave t s
+    /\ (let c := snd (Inspect.inspect (InspectSteps.enter_c St enter) (InspectSteps.leave_c St leave) t (s, (0, 0)%nat)) in
+        (1 <= fst c <= InspectSteps.nodes t)%nat /\ (snd c <= InspectSteps.nodes t)%nat).
+Proof. exact InspectSteps.inspect_visits_linear. Qed.
+
+(** ... instantiated for the Inspect passes of C04's validator model: arguments, directives, values,
+    the first and second visitor of validateFields, fragment declarations, the spread visitor of
+    validateFragmentSpreads - each calls its visitor at most once per AST node of the document
+    (what the visitor does at a node is C04's subject; its cost per node is tied by the block
+    counters: clause other-rules-work, 32..49 statements per node). *)
+Theorem C12_rule_visits_linear :
+  forall (q : ValidatorModel.quirks) (pi : ValidatorModel.order) (S : Ast.schema) (F : Ast.features) (D : Ast.document),
+  let ok (c : nat * nat) := (1 <= fst c <= InspectSteps.doc_nodes D)%nat /\ (snd c <= InspectSteps.doc_nodes D)%nat in
+  (forall s0, ok (InspectSteps.visits (ValidatorModel.arguments_enter q pi S) (fun s => s) D s0))
+  /\ (forall s0, ok (InspectSteps.visits (ValidatorModel.directives_enter q S) (fun s => s) D s0))
+  /\ (forall s0, ok (InspectSteps.visits (ValidatorModel.values_enter q pi S) (fun s => s) D s0))
+  /\ (forall s0, ok (InspectSteps.visits (ValidatorModel.fields_enter S F) ValidatorModel.pop D s0))
+  /\ (forall s0, ok (InspectSteps.visits (ValidatorModel.decl_enter S F) (fun s => s) D s0))
+  /\ (forall s0, ok (InspectSteps.visits (ValidatorModel.spreads_enter q pi S F D) ValidatorModel.pop D s0))
+  /\ (forall s0, ok (InspectSteps.visits (ValidatorModel.merge_enter_m q pi S D) (fun s => s) D s0)).
+Proof. exact InspectSteps.rule_visits_linear. Qed.
+
 (** Defect 15 for every n >= 1: on  {...F0} fragment Fi on T{a{...F(i+1)} a{...F(i+1)}} (i < n)
     fragment Fn on T{i}  ([mfam n], size 13 n + 11) the pass of the pinned tree (nothing remembered)
     never runs out of fuel and calls validateSameResponseShape at least 2^n and at least 6^(n-1)/3
@@ -212,6 +267,10 @@ Print Assumptions C12_merge_steps_bound_poly.
 Print Assumptions C12_cycle_steps_le_bound.
 Print Assumptions C12_var_steps_le_bound.
 Print Assumptions C12_parse_from_bytes_linear.
+Print Assumptions C12_scan_steps_linear.
+Print Assumptions C12_parse_depth_bounded.
+Print Assumptions C12_inspect_visits_linear.
+Print Assumptions C12_rule_visits_linear.
 Print Assumptions C12_merge_family_exponential_before_fix.
 Print Assumptions C12_cost_run_expansions.
 Print Assumptions C12_cost_run_linear_when_bodies_flat.
